@@ -1,0 +1,25 @@
+//go:build !verif
+// +build !verif
+
+package zenodb
+
+import (
+	"time"
+
+	"github.com/getlantern/wal"
+)
+
+// The functions in this file are no-op stand-ins for the verification hooks in
+// verif_on.go (build tag "verif"). They compile to nothing observable.
+
+func verifPoint(db *DB, table string, name string, offset wal.Offset) {}
+
+func verifTimer(timer *time.Timer, d time.Duration) {}
+
+func verifNap() bool { return false }
+
+func verifIntercept(it *iteration) bool { return false }
+
+func verifInitClock(db *DB) {}
+
+func verifTicker(ticker *time.Ticker, name string) {}
